@@ -60,7 +60,8 @@ var pipeHosts = map[string]string{
 	"direct": "direct.test", "directExcl": "excl.direct.test",
 	"lhName": "localhost", "lhUpper": "LOCALHOST", "lo4": "127.0.0.1", "lo4b": "127.9.9.9", "lo6": "[::1]",
 	"unspec4": "0.0.0.0", "unspec6": "[::]", "unspec6b": "[::0]", "unspec6c": "[0:0:0:0:0:0:0:0]",
-	"mapped4": "[::ffff:127.0.0.1]",
+	"mapped4": "[::ffff:127.0.0.1]", "mapped4hex": "[::ffff:7f00:1]",
+	"mappedUnspec": "[::ffff:0.0.0.0]", "mappedUnspecHex": "[::ffff:0:0]", "mappedUnspecLong": "[0:0:0:0:0:ffff:0:0]",
 }
 
 func localhostAlias() string {
@@ -491,6 +492,11 @@ func pipeRun(e *env) {
 	wg.Wait()
 }
 
+// preViolation: the pre-request itself showed a violation (as opposed to a harness problem).
+type preViolation string
+
+func (p preViolation) Error() string { return string(p) }
+
 func (pe *pipeEnv) preRequest(cl *rawClient, c *pipeCase) (*rawClient, error) {
 	var req string
 	switch c.Req.Pos {
@@ -499,7 +505,7 @@ func (pe *pipeEnv) preRequest(cl *rawClient, c *pipeCase) (*rawClient, error) {
 		if c.Cfg.Auth {
 			req += credLines("exact")[0] + "\r\n"
 		}
-	case "afterRefused":
+	case "afterRefused", "afterRefusedBodyCL", "afterRefusedBodyChunked":
 		switch {
 		case c.Cfg.Auth:
 			req = "GET http://origin.test/pre HTTP/1.1\r\nHost: origin.test\r\n"
@@ -513,7 +519,20 @@ func (pe *pipeEnv) preRequest(cl *rawClient, c *pipeCase) (*rawClient, error) {
 	default:
 		return cl, nil
 	}
-	if err := cl.send([]byte(req + "\r\n")); err != nil {
+	if strings.HasPrefix(c.Req.Pos, "afterRefusedBody") {
+		// the refused request carries a body that reads like a request of its own (with good credentials):
+		// it must be consumed as a body, never taken for the next request on the connection
+		smuggled := "GET http://origin.test/from-the-body HTTP/1.1\r\nHost: origin.test\r\n" + credLines("exact")[0] + "\r\n\r\n"
+		req = "POST" + strings.TrimPrefix(req, "GET")
+		if c.Req.Pos == "afterRefusedBodyCL" {
+			req += fmt.Sprintf("Content-Length: %d\r\n\r\n%s", len(smuggled), smuggled)
+		} else {
+			req += fmt.Sprintf("Transfer-Encoding: chunked\r\n\r\n%x\r\n%s\r\n0\r\n\r\n", len(smuggled), smuggled)
+		}
+		if err := cl.send([]byte(req)); err != nil {
+			return cl, err
+		}
+	} else if err := cl.send([]byte(req + "\r\n")); err != nil {
 		return cl, err
 	}
 	res, err := cl.recv("GET", 5*time.Second)
@@ -523,7 +542,21 @@ func (pe *pipeEnv) preRequest(cl *rawClient, c *pipeCase) (*rawClient, error) {
 	if c.Req.Pos == "afterOK" && res.Status != 200 {
 		return cl, fmt.Errorf("pre-request expected 200 got %d", res.Status)
 	}
-	if c.Req.Pos == "afterRefused" && res.Status < 400 {
+	if strings.HasPrefix(c.Req.Pos, "afterRefusedBody") {
+		// nothing may follow the refusal on the connection, and nothing may have reached any peer
+		cl.conn.SetReadDeadline(time.Now().Add(150 * time.Millisecond))
+		b, _ := cl.br.Peek(12)
+		cl.conn.SetReadDeadline(time.Time{})
+		if len(b) > 0 {
+			return cl, preViolation(fmt.Sprintf("unsolicited bytes %q after the refusal of a request with a body: the body was taken for a request", b))
+		}
+		for _, h := range pe.log.snapshot() {
+			if strings.Contains(h.Line, "from-the-body") {
+				return cl, preViolation("the body of a refused request was taken for a request and forwarded: " + h.Peer + " saw " + h.Line)
+			}
+		}
+	}
+	if strings.HasPrefix(c.Req.Pos, "afterRefused") && res.Status < 400 {
 		return cl, fmt.Errorf("pre-request expected refusal got %d", res.Status)
 	}
 	if hasToken(res.get("Connection"), "close") {
@@ -557,6 +590,10 @@ func (pe *pipeEnv) runCase(c *pipeCase) map[string]any {
 	}
 	defer func() { cl.close() }()
 	if cl, err = pe.preRequest(cl, c); err != nil {
+		if pv, ok := err.(preViolation); ok {
+			fail(string(pv))
+			return res
+		}
 		fatal("%v (case %+v)", err, c.Req)
 	}
 	pe.log.reset()
@@ -691,6 +728,9 @@ func (pe *pipeEnv) runCase(c *pipeCase) map[string]any {
 		want := expectedPeer(c)
 		if obs.Served != want {
 			fail(fmt.Sprintf("served by %q, expected %q", obs.Served, want))
+		}
+		if t := final.first("X-Req-Target"); t != "" && !strings.HasSuffix(t, path) {
+			fail(fmt.Sprintf("the response answers %q, not this request (%s)", t, path))
 		}
 		for p := range contacted {
 			if p != want {
